@@ -125,4 +125,185 @@ theorem loop_closed : ∀ (ts : List Token) (c : Converter) (pre post : List Cha
     rw [this, extendToken_eq]
     simp [offsets, specErrors, synKind, errMsg, texts_cons, utf8Len_append, Nat.add_assoc]
 
+
+/-- the value of `LexedStr::new` -/
+def lexedOf (uc : UC) (s : List Char) : LexedStr :=
+  { text := s
+    kind := (tokenize uc s).map synKind ++ [.EOF]
+    start := offsets 0 (tokenize uc s) ++ [utf8Len s]
+    error := specErrors 0 (tokenize uc s) }
+
+/-- `LexedStr::new` never panics and returns `lexedOf` -/
+theorem new_eq (uc : UC) (s : List Char) : LexedStr.new uc s = some (lexedOf uc s) := by
+  have htx : texts (tokenize uc s) = s := tokenize_texts uc s
+  simp only [LexedStr.new, Converter.new, dropBytes_zero]
+  rw [loop_closed (tokenize uc s) _ [] [] (by simp [htx]) rfl
+    (forall_tokenize uc (fun t => t.len = utf8Len t.text) (tokenAt_len uc) s)]
+  simp [Converter.finalizeWithEof, LexedStr.push, htx, lexedOf]
+
+/-! ### the offset list -/
+
+theorem offsets_length (off : Nat) (ts : List Token) : (offsets off ts).length = ts.length := by
+  induction ts generalizing off with
+  | nil => rfl
+  | cons t ts ih => simp [offsets, ih]
+
+/-- entry `i` of the start vector (sentinel included) is the byte length of the first `i`
+token texts -/
+theorem offsets_getElem? (ts : List Token) : ∀ (off i : Nat), i ≤ ts.length →
+    (offsets off ts ++ [off + utf8Len (texts ts)])[i]? = some (off + utf8Len (texts (ts.take i))) := by
+  induction ts with
+  | nil => intro off i hi; simp at hi; subst hi; simp [offsets, texts, utf8Len]
+  | cons t ts ih =>
+    intro off i hi
+    cases i with
+    | zero => simp [offsets, texts, utf8Len]
+    | succ j =>
+      simp only [offsets, List.cons_append, List.getElem?_cons_succ, List.take_succ_cons, texts_cons,
+        utf8Len_append]
+      have := ih (off + utf8Len t.text) j (by simpa using hi)
+      rw [Nat.add_assoc] at this
+      rw [this, Nat.add_assoc]
+
+theorem offsets_ge (ts : List Token) : ∀ (off : Nat),
+    ∀ x ∈ offsets off ts ++ [off + utf8Len (texts ts)], off ≤ x := by
+  induction ts with
+  | nil => intro off x hx; simp [offsets] at hx; omega
+  | cons t ts ih =>
+    intro off x hx
+    simp only [offsets, List.cons_append, List.mem_cons, texts_cons, utf8Len_append] at hx
+    rcases hx with rfl | hx
+    · exact Nat.le_refl _
+    · have := ih (off + utf8Len t.text) x (by rw [Nat.add_assoc]; exact hx)
+      omega
+
+theorem offsets_pairwise (ts : List Token) (hne : ∀ t ∈ ts, t.text ≠ []) : ∀ (off : Nat),
+    List.Pairwise (· < ·) (offsets off ts ++ [off + utf8Len (texts ts)]) := by
+  induction ts with
+  | nil => intro off; simp [offsets]
+  | cons t ts ih =>
+    intro off
+    simp only [offsets, List.cons_append, List.pairwise_cons, texts_cons, utf8Len_append]
+    have hpos := utf8Len_pos (hne t (by simp))
+    constructor
+    · intro x hx
+      have := offsets_ge ts (off + utf8Len t.text) x (by rw [Nat.add_assoc]; exact hx)
+      omega
+    · have := ih (fun t' h' => hne t' (by simp [h'])) (off + utf8Len t.text)
+      rw [Nat.add_assoc] at this
+      exact this
+
+theorem specErrors_token (ts : List Token) : ∀ (idx : Nat),
+    ∀ e ∈ specErrors idx ts, idx ≤ e.token ∧ e.token < idx + ts.length := by
+  induction ts with
+  | nil => intro idx e he; simp [specErrors] at he
+  | cons t ts ih =>
+    intro idx e he
+    simp only [specErrors, List.mem_append] at he
+    rcases he with he | he
+    · split at he
+      · simp at he
+      · simp at he; subst he; simp
+    · have := ih (idx + 1) e he
+      simp only [List.length_cons]; omega
+
+
+/-! ### accessors of `lexedOf` -/
+
+theorem lexedOf_len (uc : UC) (s : List Char) : (lexedOf uc s).len = (tokenize uc s).length := by
+  simp [lexedOf, LexedStr.len]
+
+theorem lexedOf_start (uc : UC) (s : List Char) (i : Nat) (hi : i ≤ (tokenize uc s).length) :
+    (lexedOf uc s).start[i]? = some (utf8Len (texts ((tokenize uc s).take i))) := by
+  have htx : texts (tokenize uc s) = s := tokenize_texts uc s
+  have := offsets_getElem? (tokenize uc s) 0 i hi
+  simp only [Nat.zero_add, htx] at this
+  exact this
+
+theorem lexedOf_kindAt (uc : UC) (s : List Char) (i : Nat) (hi : i < (tokenize uc s).length) :
+    (lexedOf uc s).kindAt i = some (synKind (tokenize uc s)[i]) := by
+  simp only [LexedStr.kindAt, lexedOf_len, hi, if_true]
+  simp [lexedOf, List.getElem?_append_left, hi]
+
+theorem texts_append (a b : List Token) : texts (a ++ b) = texts a ++ texts b := by
+  simp [texts]
+
+theorem lexedOf_textAt (uc : UC) (s : List Char) (i : Nat) (hi : i < (tokenize uc s).length) :
+    (lexedOf uc s).textAt i = some (tokenize uc s)[i].text := by
+  have htx : texts (tokenize uc s) = s := tokenize_texts uc s
+  simp only [LexedStr.textAt, LexedStr.rangeText, lexedOf_len]
+  rw [if_pos ⟨by omega, by omega⟩, lexedOf_start uc s i (by omega), lexedOf_start uc s (i + 1) (by omega)]
+  simp only []
+  have htake : (tokenize uc s).take (i + 1) = (tokenize uc s).take i ++ [(tokenize uc s)[i]] := by
+    rw [List.take_succ_eq_append_getElem hi]
+  have hsplit : s = texts ((tokenize uc s).take i) ++ (tokenize uc s)[i].text
+      ++ texts ((tokenize uc s).drop (i + 1)) := by
+    conv => lhs; rw [← htx, ← List.take_append_drop (i + 1) (tokenize uc s), texts_append, htake,
+      texts_append]
+    simp [texts]
+  rw [htake, texts_append, utf8Len_append]
+  have h1 : texts [(tokenize uc s)[i]] = (tokenize uc s)[i].text := by simp [texts]
+  rw [h1]
+  show sliceBytes s _ _ = _
+  conv => lhs; arg 1; rw [hsplit]
+  exact sliceBytes_append _ _ _
+
+/-! ### `Input` and `to_input` -/
+
+/-- loop invariant of `to_input` -/
+def InputInv (st : ToInputState) : Prop :=
+  st.res.joint.length = st.res.kind.length ∧ (st.wasJoint = true → st.res.kind ≠ [])
+
+theorem wasJoint_some (inp : Input) (hlen : inp.joint.length = inp.kind.length)
+    (hne : inp.kind ≠ []) :
+    ∃ r, inp.wasJoint = some r ∧ r.kind = inp.kind ∧ r.joint.length = inp.joint.length := by
+  have hpos : 0 < inp.kind.length := List.length_pos_iff.mpr hne
+  refine ⟨{ inp with joint := inp.joint.set (inp.len - 1) true }, ?_, rfl, by simp⟩
+  have hl : inp.len = inp.kind.length := rfl
+  unfold Input.wasJoint
+  rw [if_neg (by omega), if_pos (by omega)]
+
+theorem toInputStep_some (l : LexedStr) (i : Nat) (st : ToInputState) (hinv : InputInv st)
+    (hk : (l.kindAt i).isSome) (ht : (l.textAt i).isSome) :
+    ∃ st', toInputStep l i st = some st' ∧ InputInv st' := by
+  obtain ⟨k, hk⟩ := Option.isSome_iff_exists.mp hk
+  obtain ⟨t, ht⟩ := Option.isSome_iff_exists.mp ht
+  obtain ⟨hlen, hwj⟩ := hinv
+  simp only [toInputStep, hk, ht]
+  split
+  · exact ⟨_, rfl, hlen, by simp⟩
+  · -- the pending `was_joint` for the previous token
+    have h1 : ∃ res, (if st.wasJoint = true then st.res.wasJoint else some st.res) = some res ∧
+        res.joint.length = res.kind.length := by
+      split
+      · obtain ⟨r, hr, hrk, hrj⟩ := wasJoint_some st.res hlen (hwj ‹_›)
+        exact ⟨r, hr, by rw [hrj, hrk, hlen]⟩
+      · exact ⟨_, rfl, hlen⟩
+    obtain ⟨res, hres, hreslen⟩ := h1
+    rw [hres]
+    have hpush : (res.push k).joint.length = (res.push k).kind.length := by
+      simp [Input.push, hreslen]
+    have hpne : (res.push k).kind ≠ [] := by simp [Input.push]
+    simp only []
+    split
+    · split
+      · obtain ⟨r, hr, hrk, hrj⟩ := wasJoint_some (res.push k) hpush hpne
+        rw [hr]
+        exact ⟨_, rfl, by simp only []; rw [hrj, hrk, hpush], fun _ => by simp only []; rw [hrk]; exact hpne⟩
+      · exact ⟨_, rfl, hpush, fun _ => hpne⟩
+    · exact ⟨_, rfl, hpush, fun _ => hpne⟩
+
+theorem toInputLoop_some (l : LexedStr) : ∀ (n i : Nat) (st : ToInputState), InputInv st →
+    (∀ j, i ≤ j → j < i + n → (l.kindAt j).isSome ∧ (l.textAt j).isSome) →
+    ∃ st', toInputLoop l n i st = some st' ∧ InputInv st' := by
+  intro n
+  induction n with
+  | zero => intro i st hinv _; exact ⟨st, rfl, hinv⟩
+  | succ n ih =>
+    intro i st hinv hacc
+    obtain ⟨st1, h1, hinv1⟩ := toInputStep_some l i st hinv (hacc i (Nat.le_refl _) (by omega)).1
+      (hacc i (Nat.le_refl _) (by omega)).2
+    simp only [toInputLoop, h1]
+    exact ih (i + 1) st1 hinv1 (fun j h1 h2 => hacc j (by omega) (by omega))
+
 end Oq3.Lemmas.Lexed
